@@ -275,8 +275,11 @@ func (s *Streamer) parseEvents(ctx context.Context, events <-chan replication.Bi
 			_log.Debugf("parseEvents pos: %+v binlog event is a table map event, tableID: %v table map: %+v",
 				pos, tableID, *tm)
 
-			if _, ok = tablesMaps[tableID]; ok {
-				tablesMaps[tableID].tableMap = tm
+			// a cached id only stands for the cached table while it is announced under the same
+			// name: table ids start over when the master restarts
+			if tc, ok := tablesMaps[tableID]; ok &&
+				tc.tableMap.Database == tm.Database && tc.tableMap.Name == tm.Name {
+				tc.tableMap = tm
 				continue
 			}
 
